@@ -32,3 +32,11 @@ Theorem C04_unlock_before_restore_refuted :
   obs (fold_left (lstep_gen true) [(0, AcqI); (0, Install); (0, Unlock false); (1, AcqP); (1, Call)] init) = [(1, Fake 0)].
 Proof. exact unlock_before_restore_refuted. Qed.
 Print Assumptions C04_unlock_before_restore_refuted.
+
+(* the guard as found in the current source: one blocking acquisition that ignores poisoning (a holder that left by unwinding does not
+   lock the others out), taken by new() and by prevent() alike, and the last thing an injector lets go *)
+From Inj Require SrcTieLife.
+Theorem C04_source_lock_shape :
+  (SrcTieLife.src_lock_blocking_no_poison && SrcTieLife.src_prevent_same_lock && SrcTieLife.src_new_takes_lock && SrcTieLife.src_lock_dropped_last)%bool = true.
+Proof. exact SrcTieLife.src_lock_shape. Qed.
+Print Assumptions C04_source_lock_shape.
